@@ -249,3 +249,39 @@ def defuse_rule(rc, files: List[str]):
     rc.ob(f"{n_f} function bodies in {len(files)} anchored file(s): every parameter is read")
     for rel in files:
         rc.ob(f"scanned {rel}")
+
+
+def memo_rule(rc, prefixes):
+    """Memo-key completeness: `if K not in self.X: self.X[K] = f(args)` — every parameter of the enclosing function that the
+    cached computation receives must be part of the key; otherwise a later call with another value of that parameter is answered
+    from the cache of the first one (state that outlives the call changes the answer)."""
+    repo = rc.repo
+    n = 0
+    for f in repo.all_functions():
+        if not f.file.startswith(prefixes):
+            continue
+        for node in walk_no_nested(f.node):
+            if not (isinstance(node, ast.Assign) and isinstance(node.targets[0], ast.Subscript) and isinstance(node.targets[0].value, ast.Attribute)
+                    and dotted(node.targets[0].value.value) == "self" and isinstance(node.value, ast.Call)):
+                continue
+            store = norm(node.targets[0].value)
+            guard = None
+            p = getattr(node, "_parent", None)
+            while p is not None and p is not f.node:
+                if isinstance(p, ast.If):
+                    t = p.test
+                    if isinstance(t, ast.Compare) and isinstance(t.ops[0], ast.NotIn) and norm(t.comparators[0]) == store:
+                        guard = t
+                p = getattr(p, "_parent", None)
+            if guard is None:
+                continue
+            n += 1
+            key_names = {x.id for x in ast.walk(node.targets[0].slice) if isinstance(x, ast.Name)}
+            args = list(node.value.args) + [k.value for k in node.value.keywords]
+            arg_names = {x.id for a in args for x in ast.walk(a) if isinstance(x, ast.Name)}
+            missing = sorted((arg_names & set(f.params)) - key_names - {"self"})
+            rc.ob(f"{f.file}:{f.qual}: memo {norm(node, 80)} keyed by {sorted(key_names)}")
+            if missing:
+                rc.fail(f, node, f"{f.qual}: the cached value depends on parameter(s) {missing} that are not part of the cache key `{norm(node.targets[0].slice)}`: "
+                        f"a later call with another value is answered from the first call's cache", construct=f"{f.qual} memo key misses {missing}")
+    rc.ob(f"{n} compute-if-absent memo site(s) under {list(prefixes)}")
